@@ -4,6 +4,7 @@ import IpcModel.Wire
 import IpcModel.SideTable
 import IpcModel.Router
 import IpcModel.Interleave.Core
+import IpcModel.RecvSetP
 /-! Line-protocol driver: one request per line on stdin, one canonical answer per line on stdout.
 Imports model files only (no Mathlib/Std), so it links as a native executable. -/
 open Frag
@@ -328,6 +329,74 @@ def cmdIm (toks : List String) : String :=
         else s!"{if bad then "corrupt" else "ok"} delivered={",".intercalate del} results={",".intercalate res}"
   | _, _, _, _ => "bad-request"
 
+/-! ### receiver-set scripts (C06) -/
+structure SetW where
+  st : RSetP.St
+  nextId : Nat
+  blocked : Nat
+
+/-- `select`: one poll, then drain steps until the batch is finished -/
+partial def setDrain (st : RSetP.St) : RSetP.St :=
+  match st.pc with
+  | .idle => st
+  | _ => match RSetP.step st .drain with | some st' => setDrain st' | none => st
+
+def setOp (w : SetW) : List String → Option SetW
+  | ["new", k] => k.toNat?.map fun i =>
+      -- members are indexed by creation order; a fresh channel has one sender and is not registered
+      if i = w.st.members.length then { w with st := { w.st with members := w.st.members ++ [⟨0, [], 1, false, false⟩] } } else w
+  | ["add", k] => k.toNat?.bind fun i =>
+      match w.st.members[i]? with
+      | none => none
+      | some m =>
+        let st1 := RSetP.setM w.st i { m with id := w.nextId }
+        (RSetP.step st1 (.add i)).map fun st2 => { w with st := st2, nextId := w.nextId + 1 }
+  | ["send", k, t] => match k.toNat?, t.toNat? with
+      | some i, some tag =>
+        -- traffic to a member that is not (or no longer) in a set is queued on the socket all the same
+        (match w.st.members[i]? with
+         | none => none
+         | some m =>
+           if m.registered then (RSetP.step w.st (.send i tag)).map fun st2 => { w with st := st2 }
+           else some { w with st := RSetP.setM w.st i { m with q := m.q ++ [tag] } })
+      | _, _ => none
+  | ["dropsender", k] => k.toNat?.bind fun i =>
+      match w.st.members[i]? with
+      | none => none
+      | some m =>
+        if m.registered then (RSetP.step w.st (.dropSender i)).map fun st2 => { w with st := st2 }
+        else some { w with st := RSetP.setM w.st i { m with senders := m.senders - 1 } }
+  | ["select"] =>
+      match RSetP.step w.st .poll with
+      | none => some { w with blocked := w.blocked + 1 }
+      | some st1 => some { w with st := setDrain st1 }
+  | _ => none
+
+def cmdSet (toks : List String) : String :=
+  match splitBar toks with
+  | hdr :: opsT =>
+    let cap := (kvNat hdr "cap").getD Gen.eventsCap
+    let w0 : SetW := ⟨⟨cap, [], [], .idle, []⟩, 0, 0⟩
+    match (opsT.filter (· ≠ [])).foldl (fun acc o => acc.bind fun w => setOp w o) (some w0) with
+    | none => "bad-request"
+    | some w =>
+      let n := w.st.members.length
+      let per := (List.range n).map fun i =>
+        match w.st.members[i]? with
+        | none => ""
+        | some m =>
+          let evs := if m.registered || m.closedReported then w.st.reported.filterMap fun e => match e with
+            | .msg id tag => if id = m.id then some (toString tag) else none
+            | .closed id => if id = m.id then some "c" else none
+          else []
+          s!"m{i}={if evs.isEmpty then "-" else ",".intercalate evs}"
+      let ids := (List.range n).filterMap fun i =>
+        match w.st.members[i]? with
+        | some m => if m.registered || m.closedReported then some s!"{i}:{m.id}" else none
+        | none => none
+      s!"{" ".intercalate per} ids={",".intercalate ids} blocked={w.blocked}"
+  | _ => "bad-request"
+
 /-- all fault patterns (ENOBUFS or not) of length k, as numbers 0 .. 2^k-1 -/
 def patOf (k m : Nat) : List Fault := (List.range k).map fun i => if (m >>> i) % 2 = 1 then .enobufs else .none
 
@@ -358,6 +427,7 @@ def answer (line : String) : String :=
   | "side" :: rest => cmdSide rest
   | "router" :: rest => cmdRouter rest
   | "im" :: rest => cmdIm rest
+  | "set" :: rest => cmdSet rest
   | "noop" :: _ => "ok"
   | "enc" :: rest => cmdEnc rest
   | "rt" :: rest => cmdRt rest
